@@ -10,6 +10,32 @@ use crate::state::flags::*;
 use crate::helpers::macros::calculate_rm_r;
 use crate::helpers::macros::fatal_error;
 
+/// Result and flags (CF, OF) of SHR for an operand of `bits` bits; `count` is the raw (unmasked) count
+/// from the immediate, the constant 1 or CL. The count is masked to 5 bits (6 bits for 64-bit operands);
+/// a masked count of 0 leaves operand and flags untouched.
+fn shr_result(d: u64, count: u8, bits: u32) -> (u64, u64) {
+    let c = (count & if bits == 64 { 0x3f } else { 0x1f }) as u32;
+    if c == 0 {
+        return (d, FLAGS_UNAFFECTED);
+    }
+
+    // CF is the last bit shifted out (it is undefined for counts larger than the operand size)
+    let (result, cf) = if c < bits {
+        (d >> c, (d >> (c - 1)) & 1)
+    } else if c == bits {
+        (0, (d >> (bits - 1)) & 1)
+    } else {
+        (0, 0)
+    };
+    // OF is only defined for a count of 1: the most significant bit of the original operand
+    let of = if c == 1 { (d >> (bits - 1)) & 1 } else { 0 };
+
+    (
+        result,
+        if cf != 0 { FLAG_CF } else { 0 } | if of != 0 { FLAG_OF } else { 0 },
+    )
+}
+
 impl Axecutor {
     pub(crate) fn mnemonic_shr(&mut self, i: Instruction) -> Result<(), AxError> {
         debug_assert_eq!(i.mnemonic(), Shr);
@@ -38,21 +64,9 @@ impl Axecutor {
         debug_assert_eq!(i.code(), Shr_rm8_imm8);
 
         calculate_rm_imm![u8f; self; i; |d: u8, s:u8| {
-            assert_ne!(s, 1, "SHR r/m8, 1 should be handled by opcode SHR r/m8, 1");
-
-            if s == 0 {
-                return (d, FLAGS_UNAFFECTED);
-            }
-
-            match d.checked_shr((s&0x1f) as u32) {
-                Some(v) => {
-                    let cf = if d & (1 << ((s-1)&0x1f)) != 0 { FLAG_CF } else {0};
-
-                    (v, cf)
-                }
-                None => (0, if s == 8 && d & 0x80 != 0 { FLAG_CF } else {0})
-            }
-        }; (set: FLAG_PF | FLAG_ZF | FLAG_SF; clear: FLAG_CF)]
+            let (result, flags) = shr_result(d as u64, s, 8);
+            (result as u8, flags)
+        }; (set: FLAG_PF | FLAG_ZF | FLAG_SF; clear: FLAG_CF | FLAG_OF)]
     }
 
     /// SHR r/m16, imm8
@@ -62,21 +76,9 @@ impl Axecutor {
         debug_assert_eq!(i.code(), Shr_rm16_imm8);
 
         calculate_rm_imm![u16f; u8; self; i; |d: u16, s:u8| {
-            assert_ne!(s, 1, "SHR r/m16, 1 should be handled by opcode SHR r/m16, 1");
-
-            if s == 0 {
-                return (d, FLAGS_UNAFFECTED);
-            }
-
-            match d.checked_shr((s&0x1f) as u32) {
-                Some(v) => {
-                    let cf = if d & (1 << ((s-1)&0x1f)) != 0 { FLAG_CF } else {0};
-
-                    (v, cf)
-                }
-                None => (0, if s == 16 && d & 0x8000 != 0 { FLAG_CF } else {0})
-            }
-        }; (set: FLAG_PF | FLAG_ZF | FLAG_SF; clear: FLAG_CF)]
+            let (result, flags) = shr_result(d as u64, s, 16);
+            (result as u16, flags)
+        }; (set: FLAG_PF | FLAG_ZF | FLAG_SF; clear: FLAG_CF | FLAG_OF)]
     }
 
     /// SHR r/m32, imm8
@@ -86,21 +88,9 @@ impl Axecutor {
         debug_assert_eq!(i.code(), Shr_rm32_imm8);
 
         calculate_rm_imm![u32f; u8; self; i; |d: u32, s:u8| {
-            assert_ne!(s, 1, "SHR r/m32, 1 should be handled by opcode SHR r/m32, 1");
-
-            if s == 0 {
-                return (d, FLAGS_UNAFFECTED);
-            }
-
-            match d.checked_shr((s&0x1f) as u32) {
-                Some(v) => {
-                    let cf = if d & (1 << ((s-1)&0x1f)) != 0 { FLAG_CF } else {0};
-
-                    (v, cf)
-                }
-                None => (0, if s == 32 && d & 0x8000_0000 != 0 { FLAG_CF } else {0})
-            }
-        }; (set: FLAG_PF | FLAG_ZF | FLAG_SF; clear: FLAG_CF)]
+            let (result, flags) = shr_result(d as u64, s, 32);
+            (result as u32, flags)
+        }; (set: FLAG_PF | FLAG_ZF | FLAG_SF; clear: FLAG_CF | FLAG_OF)]
     }
 
     /// SHR r/m64, imm8
@@ -110,21 +100,9 @@ impl Axecutor {
         debug_assert_eq!(i.code(), Shr_rm64_imm8);
 
         calculate_rm_imm![u64f; u8; self; i; |d: u64, s:u8| {
-            assert_ne!(s, 1, "SHR r/m64, 1 should be handled by opcode SHR r/m64, 1");
-
-            if s == 0 {
-                return (d, FLAGS_UNAFFECTED);
-            }
-
-            match d.checked_shr((s&0x1f) as u32) {
-                Some(v) => {
-                    let cf = if d & (1 << ((s-1)&0x1f)) != 0 { FLAG_CF } else {0};
-
-                    (v, cf)
-                }
-                None => (0, if s == 64 && d & 0x8000_0000_0000_0000 != 0 { FLAG_CF } else {0})
-            }
-        }; (set: FLAG_PF | FLAG_ZF | FLAG_SF; clear: FLAG_CF)]
+            let (result, flags) = shr_result(d as u64, s, 64);
+            (result as u64, flags)
+        }; (set: FLAG_PF | FLAG_ZF | FLAG_SF; clear: FLAG_CF | FLAG_OF)]
     }
 
     /// SHR r/m8, 1
@@ -134,13 +112,8 @@ impl Axecutor {
         debug_assert_eq!(i.code(), Shr_rm8_1);
 
         calculate_rm_imm![u8f; self; i; |d: u8, s: u8| {
-            debug_assert_eq!(s, 1, "SHL r/m8, 1: src is not 1");
-
-            let cf = if d & 0x01 != 0 { FLAG_CF } else {0};
-            // "OF flag is set to the most-significant bit of the original operand"
-            let of = if d & 0x80 != 0 { FLAG_OF } else {0};
-
-            (d.wrapping_shr(1), cf | of)
+            let (result, flags) = shr_result(d as u64, s, 8);
+            (result as u8, flags)
         }; (set: FLAG_PF | FLAG_ZF | FLAG_SF; clear: FLAG_CF | FLAG_OF)]
     }
 
@@ -151,13 +124,8 @@ impl Axecutor {
         debug_assert_eq!(i.code(), Shr_rm16_1);
 
         calculate_rm_imm![u16f; u8; self; i; |d: u16, s: u8| {
-            debug_assert_eq!(s, 1, "SHL r/m16, 1: src is not 1");
-
-            let cf = if d & 0x01 != 0 { FLAG_CF } else {0};
-            // "OF flag is set to the most-significant bit of the original operand"
-            let of = if d & 0x8000 != 0 { FLAG_OF } else {0};
-
-            (d.wrapping_shr(1), cf | of)
+            let (result, flags) = shr_result(d as u64, s, 16);
+            (result as u16, flags)
         }; (set: FLAG_PF | FLAG_ZF | FLAG_SF; clear: FLAG_CF | FLAG_OF)]
     }
 
@@ -168,13 +136,8 @@ impl Axecutor {
         debug_assert_eq!(i.code(), Shr_rm32_1);
 
         calculate_rm_imm![u32f; u8; self; i; |d: u32, s: u8| {
-            debug_assert_eq!(s, 1, "SHL r/m32, 1: src is not 1");
-
-            let cf = if d & 0x01 != 0 { FLAG_CF } else {0};
-            // "OF flag is set to the most-significant bit of the original operand"
-            let of = if d & 0x8000_0000 != 0 { FLAG_OF } else {0};
-
-            (d.wrapping_shr(1), cf | of)
+            let (result, flags) = shr_result(d as u64, s, 32);
+            (result as u32, flags)
         }; (set: FLAG_PF | FLAG_ZF | FLAG_SF; clear: FLAG_CF | FLAG_OF)]
     }
 
@@ -185,13 +148,8 @@ impl Axecutor {
         debug_assert_eq!(i.code(), Shr_rm64_1);
 
         calculate_rm_imm![u64f; u8; self; i; |d: u64, s: u8| {
-            debug_assert_eq!(s, 1, "SHL r/m64, 1: src is not 1");
-
-            let cf = if d & 0x01 != 0 { FLAG_CF } else {0};
-            // "OF flag is set to the most-significant bit of the original operand"
-            let of = if d & 0x8000_0000_0000_0000 != 0 { FLAG_OF } else {0};
-
-            (d.wrapping_shr(1), cf | of)
+            let (result, flags) = shr_result(d as u64, s, 64);
+            (result as u64, flags)
         }; (set: FLAG_PF | FLAG_ZF | FLAG_SF; clear: FLAG_CF | FLAG_OF)]
     }
 
@@ -202,19 +160,8 @@ impl Axecutor {
         debug_assert_eq!(i.code(), Shr_rm8_CL);
 
         calculate_rm_r![u8f; self; i; |d: u8, s: u8| {
-            if s == 0 {
-                return (d, FLAGS_UNAFFECTED);
-            }
-
-            match d.checked_shr((s&0x1f) as u32) {
-                Some(v) => {
-                    let cf = if d & (1 << ((s-1)&0x1f)) != 0 { FLAG_CF } else {0};
-                    let of = if s == 1 && d & 0x80 != 0 { FLAG_OF } else {0};
-
-                    (v, cf|of)
-                }
-                None => (0, if s == 8 && d & 0x80 != 0 { FLAG_CF } else {0})
-            }
+            let (result, flags) = shr_result(d as u64, s, 8);
+            (result as u8, flags)
         }; (set: FLAG_PF | FLAG_ZF | FLAG_SF; clear: FLAG_CF | FLAG_OF)]
     }
 
@@ -225,19 +172,8 @@ impl Axecutor {
         debug_assert_eq!(i.code(), Shr_rm16_CL);
 
         calculate_rm_r![u16f; u8; self; i; |d: u16, s: u8| {
-            if s == 0 {
-                return (d, FLAGS_UNAFFECTED);
-            }
-
-            match d.checked_shr((s&0x1f) as u32) {
-                Some(v) => {
-                    let cf = if d & (1 << ((s-1)&0x1f)) != 0 { FLAG_CF } else {0};
-                    let of = if s == 1 && d & 0x8000 != 0 { FLAG_OF } else {0};
-
-                    (v, cf|of)
-                }
-                None => (0, if s == 16 && d & 0x8000 != 0 { FLAG_CF } else {0})
-            }
+            let (result, flags) = shr_result(d as u64, s, 16);
+            (result as u16, flags)
         }; (set: FLAG_PF | FLAG_ZF | FLAG_SF; clear: FLAG_CF | FLAG_OF)]
     }
 
@@ -248,19 +184,8 @@ impl Axecutor {
         debug_assert_eq!(i.code(), Shr_rm32_CL);
 
         calculate_rm_r![u32f; u8; self; i; |d: u32, s: u8| {
-            if s == 0 {
-                return (d, FLAGS_UNAFFECTED);
-            }
-
-            match d.checked_shr((s&0x1f) as u32) {
-                Some(v) => {
-                    let cf = if d & (1 << ((s-1)&0x1f)) != 0 { FLAG_CF } else {0};
-                    let of = if s == 1 && d & 0x8000_0000 != 0 { FLAG_OF } else {0};
-
-                    (v, cf|of)
-                }
-                None => (0, if s == 32 && d & 0x8000_0000 != 0 { FLAG_CF } else {0})
-            }
+            let (result, flags) = shr_result(d as u64, s, 32);
+            (result as u32, flags)
         }; (set: FLAG_PF | FLAG_ZF | FLAG_SF; clear: FLAG_CF | FLAG_OF)]
     }
 
@@ -271,19 +196,8 @@ impl Axecutor {
         debug_assert_eq!(i.code(), Shr_rm64_CL);
 
         calculate_rm_r![u64f; u8; self; i; |d: u64, s: u8| {
-            if s == 0 {
-                return (d, FLAGS_UNAFFECTED);
-            }
-
-            match d.checked_shr((s&0x1f) as u32) {
-                Some(v) => {
-                    let cf = if d & (1 << ((s-1)&0x1f)) != 0 { FLAG_CF } else {0};
-                    let of = if s == 1 && d & 0x8000_0000_0000_0000 != 0 { FLAG_OF } else {0};
-
-                    (v, cf|of)
-                }
-                None => (0, if s == 64 && d & 0x8000_0000_0000_0000 != 0 { FLAG_CF } else {0})
-            }
+            let (result, flags) = shr_result(d as u64, s, 64);
+            (result as u64, flags)
         }; (set: FLAG_PF | FLAG_ZF | FLAG_SF; clear: FLAG_CF | FLAG_OF)]
     }
 }
